@@ -10,6 +10,7 @@
   thread counts and seeded scheduling jitter must be byte-identical), which is monitoring, not proof.
 -/
 import FontcProps.C07
+import FontcProofs.Confluence
 
 namespace Fontc.C01
 open Fontc Fontc.VarModel
@@ -24,5 +25,171 @@ theorem variation_model_order_independent (n : Nat) (locs₁ locs₂ : List Loc)
 /-- Non-vacuity: two different enumeration orders (with a repeat) of one location set. -/
 example : Model.new 1 [[0], [1], [1/2]] = Model.new 1 [[1/2], [0], [1], [0]] :=
   variation_model_order_independent 1 _ _ (by intro l; simp; grind)
+
+end Fontc.C01
+
+/-! ## (i) Confluence: the final build context does not depend on the schedule
+
+  Setting (FontcModel/Confluence.lean): the build context is a `Store` (item ↦ optional value); a `Job` has an id, a
+  declared read set and write set, and `run`, the list of `Context::set` calls it makes as a function of the store.
+  `WF j`: what it writes depends only on the items of its read set, and it writes only items of its write set (this is
+  what the `Access` checks of the context enforce by panicking).  `exec j s` runs one job, `execAll l s` runs the
+  schedule `l` in order.  `conflict j k`: one may write an item the other may read or write.  `Before l j k`: `j`'s id
+  occurs before `k`'s id in `l`.  All theorems are for every list of jobs, every value type and every initial store.
+
+  Tie to C02.  The hypothesis of `final_store_schedule_independent` — a must-precede order that decides every
+  conflicting pair and that every admitted schedule respects — is what Driver/C02 checks on the recorded accesses of
+  every real build (oracle clause (c): every pair of accesses to one context entry by two different jobs, one of them
+  a write, is ordered in the recorded trace — finish of one before launch of the other — and that order is forced by
+  the verified static relation `mustPrecede` of the extracted script) and what
+  `Fontc.C02.every_read_after_producer` / `Fontc.C02.mustPrecede_sound` give for checked scripts: the facts of the
+  must-precede table hold in EVERY interleaving the scheduler model admits.  Given that, this section is the classical
+  consequence (Mazurkiewicz trace equivalence): all such schedules end in the same context.
+  What stays outside the proof (trusted / monitored, not proved here): that the real jobs are `WF` for the accesses
+  that were recorded (the context's `Access` checks and the c02 stream), that the recorded accesses of the sampled
+  runs cover those of every run, and that a parallel run equals the sequential run of one of its linearisations
+  (conflicting jobs never overlap in time: one finishes before the other is launched, clause (c)).
+-/
+
+namespace Fontc.C01
+open Fontc.Confluence
+
+/-- **Independent jobs commute.** -/
+theorem exec_comm {Val : Type} {j k : Job Val} (wj : WF j) (wk : WF k) (h : indep j k) (s : Store Val) :
+    exec k (exec j s) = exec j (exec k s) :=
+  Confluence.exec_comm wj wk h s
+
+/-- Swapping two adjacent independent jobs anywhere in a schedule does not change the final store. -/
+theorem execAll_swap {Val : Type} {j k : Job Val} (wj : WF j) (wk : WF k) (h : indep j k)
+    (pre post : List (Job Val)) (s : Store Val) :
+    execAll (pre ++ j :: k :: post) s = execAll (pre ++ k :: j :: post) s :=
+  Confluence.execAll_swap wj wk h pre post s
+
+/-- **Schedule independence.**  Two schedules of the same well-formed jobs (a permutation, pairwise distinct ids) in
+    which every conflicting pair appears in the same relative order end in the same store. -/
+theorem schedule_independent {Val : Type} (l₁ l₂ : List (Job Val)) (wf : ∀ j ∈ l₁, WF j) (perm : l₁.Perm l₂)
+    (nd : (ids l₁).Nodup)
+    (same : ∀ j ∈ l₁, ∀ k ∈ l₁, conflict j k = true → (Before l₁ j k ↔ Before l₂ j k)) (s : Store Val) :
+    execAll l₁ s = execAll l₂ s :=
+  Confluence.schedule_independent l₁ l₂ wf perm nd same s
+
+/-- **The final store is schedule independent.**  If a relation `mustPrecede` orders every conflicting pair of distinct
+    jobs one way or the other, then any two linearisations of the job set that respect `mustPrecede` end in the same
+    store.  (`mustPrecede` need not be assumed irreflexive or asymmetric: a relation that is not has no respecting
+    linearisation with distinct ids.) -/
+theorem final_store_schedule_independent {Val : Type} (mustPrecede : Job Val → Job Val → Prop)
+    (l₁ l₂ : List (Job Val)) (wf : ∀ j ∈ l₁, WF j) (perm : l₁.Perm l₂) (nd : (ids l₁).Nodup)
+    (total : ∀ j ∈ l₁, ∀ k ∈ l₁, j.id ≠ k.id → conflict j k = true → mustPrecede j k ∨ mustPrecede k j)
+    (r₁ : ∀ j ∈ l₁, ∀ k ∈ l₁, mustPrecede j k → Before l₁ j k)
+    (r₂ : ∀ j ∈ l₂, ∀ k ∈ l₂, mustPrecede j k → Before l₂ j k) (s : Store Val) :
+    execAll l₁ s = execAll l₂ s :=
+  Confluence.final_store_schedule_independent mustPrecede l₁ l₂ wf perm nd total r₁ r₂ s
+
+/-! ### Non-vacuity: a diamond  `src → {incr, dbl} → sum` -/
+
+namespace Diamond
+
+def get (s : Store Nat) (i : Item) : Nat := (s i).getD 0
+
+/-- writes item 0 -/
+def src : Job Nat := { id := 0, reads := [], writes := [0], run := fun _ => [(0, 5)] }
+/-- item 1 := item 0 + 1 -/
+def incr : Job Nat := { id := 1, reads := [0], writes := [1], run := fun s => [(1, get s 0 + 1)] }
+/-- item 2 := item 0 * 2 -/
+def dbl : Job Nat := { id := 2, reads := [0], writes := [2], run := fun s => [(2, get s 0 * 2)] }
+/-- item 3 := item 1 + item 2 -/
+def sum : Job Nat := { id := 3, reads := [1, 2], writes := [3], run := fun s => [(3, get s 1 + get s 2)] }
+
+theorem wf_src : WF src := ⟨fun _ _ _ => rfl, fun s p hp => by simp [src] at hp; simp [hp, src]⟩
+theorem wf_incr : WF incr :=
+  ⟨fun s s' h => by have := h 0 (by simp [incr]); simp [incr, get, this],
+   fun s p hp => by simp [incr] at hp; simp [hp, incr]⟩
+theorem wf_dbl : WF dbl :=
+  ⟨fun s s' h => by have := h 0 (by simp [dbl]); simp [dbl, get, this],
+   fun s p hp => by simp [dbl] at hp; simp [hp, dbl]⟩
+theorem wf_sum : WF sum :=
+  ⟨fun s s' h => by
+     have h1 := h 1 (by simp [sum]); have h2 := h 2 (by simp [sum]); simp [sum, get, h1, h2],
+   fun s p hp => by simp [sum] at hp; simp [hp, sum]⟩
+
+/-- the two middle jobs are independent; each conflicts with the source and with the sink -/
+example : indep incr dbl ∧ conflict src incr = true ∧ conflict src dbl = true ∧
+    conflict incr sum = true ∧ conflict dbl sum = true := by decide
+
+/-- the dependency order of the diamond, on ids -/
+def mustPrecede (j k : Job Nat) : Prop := (j.id, k.id) ∈ [(0, 1), (0, 2), (1, 3), (2, 3)]
+
+instance (j k : Job Nat) : Decidable (mustPrecede j k) := by unfold mustPrecede; infer_instance
+
+def l₁ : List (Job Nat) := [src, incr, dbl, sum]
+def l₂ : List (Job Nat) := [src, dbl, incr, sum]
+
+theorem all_wf : ∀ j ∈ l₁, WF j := by
+  intro j hj
+  simp only [l₁, List.mem_cons, List.not_mem_nil, or_false] at hj
+  rcases hj with rfl | rfl | rfl | rfl
+  · exact wf_src
+  · exact wf_incr
+  · exact wf_dbl
+  · exact wf_sum
+
+theorem perm : l₁.Perm l₂ := (List.Perm.swap dbl incr [sum]).cons src
+
+theorem total : ∀ j ∈ l₁, ∀ k ∈ l₁, j.id ≠ k.id → conflict j k = true → mustPrecede j k ∨ mustPrecede k j := by
+  intro j hj k hk
+  simp only [l₁, List.mem_cons, List.not_mem_nil, or_false] at hj hk
+  rcases hj with rfl | rfl | rfl | rfl <;> rcases hk with rfl | rfl | rfl | rfl <;> decide
+
+theorem respects₁ : ∀ j ∈ l₁, ∀ k ∈ l₁, mustPrecede j k → Before l₁ j k := by
+  intro j hj k hk
+  simp only [l₁, List.mem_cons, List.not_mem_nil, or_false] at hj hk
+  rcases hj with rfl | rfl | rfl | rfl <;> rcases hk with rfl | rfl | rfl | rfl <;> decide
+
+theorem respects₂ : ∀ j ∈ l₂, ∀ k ∈ l₂, mustPrecede j k → Before l₂ j k := by
+  intro j hj k hk
+  simp only [l₂, List.mem_cons, List.not_mem_nil, or_false] at hj hk
+  rcases hj with rfl | rfl | rfl | rfl <;> rcases hk with rfl | rfl | rfl | rfl <;> decide
+
+/-- all hypotheses of `final_store_schedule_independent` hold for the two linearisations of the diamond … -/
+example (s : Store Nat) : execAll l₁ s = execAll l₂ s :=
+  final_store_schedule_independent mustPrecede l₁ l₂ all_wf perm (by decide) total respects₁ respects₂ s
+
+/-- … and the common final store is the expected one: item 3 = (5 + 1) + (5 * 2). -/
+example : (execAll l₁ (fun _ => none)) 3 = some 16 ∧ (execAll l₂ (fun _ => none)) 3 = some 16 := by decide
+
+/-- `execAll_swap` on the middle of the diamond -/
+example (s : Store Nat) : execAll ([src] ++ incr :: dbl :: [sum]) s = execAll ([src] ++ dbl :: incr :: [sum]) s :=
+  execAll_swap wf_incr wf_dbl (by decide) [src] [sum] s
+
+end Diamond
+
+/-! ### The hypothesis is needed: two conflicting writers in different orders -/
+
+namespace Race
+
+def w₁ : Job Nat := { id := 0, reads := [], writes := [0], run := fun _ => [(0, 1)] }
+def w₂ : Job Nat := { id := 1, reads := [], writes := [0], run := fun _ => [(0, 2)] }
+
+theorem wf₁ : WF w₁ := ⟨fun _ _ _ => rfl, fun s p hp => by simp [w₁] at hp; simp [hp, w₁]⟩
+theorem wf₂ : WF w₂ := ⟨fun _ _ _ => rfl, fun s p hp => by simp [w₂] at hp; simp [hp, w₂]⟩
+
+/-- Without "conflicting pairs are ordered identically" the conclusion fails: `[w₁, w₂]` and `[w₂, w₁]` are
+    permutations of the same well-formed jobs with distinct ids, the pair conflicts, it is ordered differently —
+    and the final stores differ (last writer wins). -/
+theorem conflict_order_needed :
+    (∀ j ∈ [w₁, w₂], WF j) ∧ [w₁, w₂].Perm [w₂, w₁] ∧ (ids [w₁, w₂]).Nodup ∧ conflict w₁ w₂ = true ∧
+    Before [w₁, w₂] w₁ w₂ ∧ ¬ Before [w₂, w₁] w₁ w₂ ∧
+    execAll [w₁, w₂] (fun _ => none) ≠ execAll [w₂, w₁] (fun _ => none) := by
+  refine ⟨?_, List.Perm.swap w₂ w₁ [], by decide, by decide, by decide, by decide, ?_⟩
+  · intro j hj
+    simp only [List.mem_cons, List.not_mem_nil, or_false] at hj
+    rcases hj with rfl | rfl
+    · exact wf₁
+    · exact wf₂
+  · intro h
+    have : (some 2 : Option Nat) = some 1 := congrFun h 0
+    exact absurd this (by decide)
+
+end Race
 
 end Fontc.C01
